@@ -65,6 +65,12 @@ func (w *c01pworld) handler(rw http.ResponseWriter, q *http.Request, rec *rig.Or
 		h.Set("Content-Length", strconv.Itoa(n)) // every third resource (every second in the abort scenario) is sent without a length (chunked)
 	}
 	h.Set("Cache-Control", "max-age=3600")
+	// fields sent on three separate lines (an origin behind intermediaries): the stored value slices have spare
+	// capacity, so a response that appended to them in place would write into the stored entry
+	for _, v := range []string{"1.1 edge-a", "1.1 edge-b", "1.0 inner"} {
+		h.Add("Via", v)
+		h.Add("Warning", "199 - \""+v+"\"")
+	}
 	rw.WriteHeader(200)
 	body := rig.Body(res, cur, n)
 	cut := int(w.abortAt.Load())
@@ -186,10 +192,49 @@ func c01RunProxy(b core.Batch, r *core.Recorder) {
 	if scenario == "churn" {
 		opts.ForceDefault, opts.DefaultMaxAge = true, 4*time.Millisecond
 	}
+	if scenario == "reval-storm" {
+		// every stored entry is stale at once: each request revalidates (304) or is coalesced onto a revalidation
+		// that is under way, so hits are being served while the same entry's metadata is renewed
+		opts.ForceDefault, opts.DefaultMaxAge = true, time.Nanosecond
+	}
 	p := rig.StartProxy(opts)
 	defer p.Close()
 
 	switch scenario {
+	case "reval-storm":
+		for round := 0; round < b.Int("rounds", 4); round++ {
+			id := fmt.Sprintf("%s-%s-%s-%d", scenario, backend, mode, round)
+			if !r.Case(id, nil) {
+				continue
+			}
+			r.Eval(1)
+			cs := map[string]any{"id": id, "scenario": scenario, "backend": backend, "transport": string(mode)}
+			resNo := 7000 + round
+			target := fmt.Sprintf("/r%d", resNo)
+			c01checkResp(r, cs, resNo, rig.Do(p, mode, o.Addr, rig.Req{Target: target}), "prime")
+			var wg sync.WaitGroup
+			var n atomic.Int64
+			for g := 0; g < 8; g++ {
+				wg.Add(1)
+				go func() {
+					defer wg.Done()
+					for i := 0; i < b.Int("storm_requests", 150); i++ {
+						q := rig.Req{Target: target}
+						if i%7 == 3 {
+							q.Header = [][2]string{{"Range", "bytes=16-79"}}
+						}
+						resp := rig.Do(p, mode, o.Addr, q)
+						if v, _ := c01checkResp(r, cs, resNo, resp, "storm-get"); v > 0 {
+							n.Add(1)
+						}
+					}
+				}()
+			}
+			wg.Wait()
+			r.Count("storm_responses_checked", n.Load())
+			r.Nontrivial("reval-storm", backend, string(mode), round)
+		}
+		r.Sample(map[string]any{"scenario": "reval-storm", "what": "forced lifetime of 1 ns: 8 clients x 150 GETs on one resource; every answer is a revalidated (304) or coalesced hit; integrity of every body and its headers"})
 	case "single-writer", "churn":
 		resources := b.Int("resources", 3)
 		rounds := b.Int("rounds", 6)
@@ -366,7 +411,11 @@ func c01ProxyPlan(tier string) []core.Batch {
 	var bs []core.Batch
 	for _, be := range []string{"memory", "file"} {
 		for _, tr := range []string{"plain", "tunnel"} {
-			for _, sc := range []string{"single-writer", "churn"} {
+			scs := []string{"single-writer", "churn"}
+			if tr == "plain" {
+				scs = append(scs, "reval-storm")
+			}
+			for _, sc := range scs {
 				bs = append(bs, core.Batch{Name: fmt.Sprintf("proxy-%s-%s-%s", sc, be, tr), Race: true, TimeoutS: 1800,
 					Args: map[string]any{"mode": "proxy", "scenario": sc, "backend": be, "transport": tr, "rounds": rounds}})
 			}
